@@ -82,10 +82,10 @@ Fixpoint many {A} (fuel : nat) (p : P A) (s : bytes) : res (list A * bytes) :=
 
 (** [e ** sep] (zero or more) and [e ++ sep] (one or more): a separator that is not followed
     by an element is not consumed. *)
-Definition sep_list {A} (fuel : nat) (p : P A) (sep : bytes -> option bytes) : P (list A) :=
+Definition sep_list {A} (p : P A) (sep : bytes -> option bytes) : P (list A) :=
   fun s => match p s with
            | Ok (a, r) =>
-               match many fuel (fun s1 => match sep s1 with Some s2 => p s2 | None => Err end) r with
+               match many (S (length r)) (fun s1 => match sep s1 with Some s2 => p s2 | None => Err end) r with
                | Ok (l, r') => Ok (a :: l, r')
                | Err => Err | Panic k => Panic k | OOF => OOF
                end
@@ -93,8 +93,8 @@ Definition sep_list {A} (fuel : nat) (p : P A) (sep : bytes -> option bytes) : P
            | Panic k => Panic k
            | OOF => OOF
            end.
-Definition sep_list1 {A} (fuel : nat) (p : P A) (sep : bytes -> option bytes) : P (list A) :=
-  fun s => match sep_list fuel p sep s with
+Definition sep_list1 {A} (p : P A) (sep : bytes -> option bytes) : P (list A) :=
+  fun s => match sep_list p sep s with
            | Ok ([], _) => Err
            | x => x
            end.
@@ -351,7 +351,7 @@ Definition in_expr : P expr :=
   let* _ := skip in
   let* _ := sym 40 in
   let* _ := skip in
-  let* vs := (fun s => sep_list (S (length s)) value comma_sep s) in
+  let* vs := sep_list value comma_sep in
   let* _ := skip in
   let* _ := sym 41 in
   ret (EIn f vs).
@@ -458,7 +458,7 @@ Definition return_item : P bytes := alt fieldp strp.
 Definition return_clause : P clause :=
   let* _ := kw K_RETURN in let* _ := skip in
   let* _ := sym 91 in let* _ := skip in
-  let* fields := (fun s => sep_list (S (length s)) return_item comma_sep s) in
+  let* fields := sep_list return_item comma_sep in
   let* _ := skip in
   let* _ := sym 93 in
   ret (ClReturn fields).
@@ -508,7 +508,7 @@ Definition agg_spec : P agg :=
       (agg_field K_MAX AMax)))))).
 
 Definition agg_clause : P clause :=
-  let* specs := (fun s => sep_list1 (S (length s)) agg_spec comma_sep s) in
+  let* specs := sep_list1 agg_spec comma_sep in
   ret (ClAggs specs).
 
 Definition granularity : P gran :=
